@@ -43,6 +43,10 @@ def check(ctx):
     p = ctx.prog()
     mir = Mirror(p, ctx)
     mir.exceptions = dict(EXCEPTIONS)
+    # ---- R0 the colours are processed one after the other: what one colour's pass reads of the other's state is complete ------------
+    # (MIRROR types each function against its opposite-colour twin as if both saw finished tables; that premise is this rule)
+    from props.C14 import r6 as _members
+    _members(ctx, p, rule='C13.R0.members-built-first')
 
     # ---- R1 endgame evaluators ----------------------------------------------------------------------------------------
     evals = [f for f in p.funcs.values() if f.name.endswith('::strongSideScore') and f.ctargs and f.body is not None]
